@@ -349,6 +349,7 @@ func (i *Interpreter) ProcessRecv() error {
 
 	switch state {
 	case PASS:
+		i.process.Cached = false // a restarted request may have hit before
 		i.ctx.State = "MISS"
 		i.Debugger.Message(fmt.Sprintf("Move state: %s -> HASH", i.ctx.Scope))
 		if err = i.ProcessHash(); err != nil {
@@ -374,6 +375,7 @@ func (i *Interpreter) ProcessRecv() error {
 			i.Debugger.Message(fmt.Sprintf("Move state: %s -> HIT", i.ctx.Scope))
 			err = i.ProcessHit()
 		} else {
+			i.process.Cached = false // a restarted request may have hit before
 			i.ctx.State = "MISS"
 			i.Debugger.Message(fmt.Sprintf("Move state: %s -> MISS", i.ctx.Scope))
 			err = i.ProcessMiss()
